@@ -16,7 +16,7 @@ for d in "$HERE"/selftest/mutations/*${PAT}*.diff; do
   case "$base" in pass__*) expect=0; name="${base#pass__}";; esac
   prop="${name%%__*}"
   scratch=$(mktemp -d /tmp/vcgo-selftest-XXXXXX)
-  rsync -a --exclude .git /repo/ "$scratch/"
+  git -C /repo archive HEAD | tar -x -C "$scratch"   # committed state: edits in progress in /repo do not disturb the corpus
   if ! (cd "$scratch" && patch -p1 -s < "$d"); then echo "PATCH-FAILED $base"; fail=1; rm -rf "$scratch"; continue; fi
   if ! (cd "$scratch" && GOFLAGS=-mod=mod GOPROXY=off GOSUMDB=off go build ./... >/dev/null 2>&1); then echo "DOES-NOT-COMPILE $base"; fail=1; rm -rf "$scratch"; continue; fi
   out=$(VCGO_BIN="$BINDIR/vcgo" VERIF_REPO="$scratch" VERIF_EVIDENCE_DIR="$scratch/.ev" VERIF_OUT_DIR="$scratch/.out" VERIF_REPLAY_DIR="$scratch/.replay" "$HERE/check" "$prop" quick 2>&1); rc=$?
